@@ -263,7 +263,8 @@ package unionstore
 //@ func (*PipelinedMemDB) FlushWait
 //@   prop C16
 //@   ensures done: p.flushingMemDB == nil && p.memDB == old(p.memDB) && p.generation == old(p.generation)
-//@   ensures idle: old(p.flushingMemDB) == nil ==> result == nil
+//@   ensures idle: old(p.flushingMemDB) == nil ==> result == nil && recvd(p.errCh) == old(recvd(p.errCh))
+//@   ensures drained: old(p.flushingMemDB) != nil ==> recvd(p.errCh) == old(recvd(p.errCh)) + 1
 
 // the error of a failed flush is never swallowed
 //@ func (*PipelinedMemDB) handleAlreadyExistErr
